@@ -101,6 +101,10 @@ pub struct Env {
     /// "release" or "verif-debug"
     pub profile: String,
     db: Option<anything::Db>,
+    /// A check whose case stands for many sub-cases (bulk enumeration inside
+    /// `check`) adds the number of sub-cases it evaluated / found non-trivial.
+    pub bulk_evals: u64,
+    pub bulk_nontrivial: u64,
 }
 
 impl Env {
@@ -109,6 +113,8 @@ impl Env {
             tier,
             profile: std::env::var("VH_PROFILE").unwrap_or_else(|_| "release".into()),
             db: None,
+            bulk_evals: 0,
+            bulk_nontrivial: 0,
         }
     }
     pub fn db(&mut self) -> &anything::Db {
@@ -205,12 +211,15 @@ pub struct WorkerReport {
     pub capped: bool,
     pub wall_s: f64,
     pub duplicate_keys: u64,
+    #[serde(default)]
+    pub bulk_evals: u64,
 }
 
 static CUR_LEN: AtomicUsize = AtomicUsize::new(0);
 static mut CUR_BUF: [u8; 4096] = [0; 4096];
 static CASE_COUNTER: AtomicU64 = AtomicU64::new(0);
 static CASE_INDEX: AtomicU64 = AtomicU64::new(0);
+static IN_CHECK: std::sync::atomic::AtomicBool = std::sync::atomic::AtomicBool::new(false);
 
 fn set_current(key: &str, gen_index: u64) {
     let b = key.as_bytes();
@@ -303,7 +312,7 @@ fn start_watchdog(budget_s: u64) {
         loop {
             std::thread::sleep(Duration::from_millis(250));
             let cur = CASE_COUNTER.load(Ordering::SeqCst);
-            if cur != last {
+            if cur != last || !IN_CHECK.load(Ordering::SeqCst) {
                 last = cur;
                 since = Instant::now();
             } else if cur > 0 && since.elapsed() > Duration::from_secs(budget_s) {
@@ -398,6 +407,8 @@ pub fn run_worker(prop: &dyn Prop, args: WorkerArgs) -> WorkerReport {
     let mut gen_index: u64 = 0;
     let deadline = Duration::from_secs(args.deadline_s);
     let id = prop.id();
+    // cases on which an earlier run of this shard crashed or hung
+    let skip: HashSet<String> = std::env::var("VH_SKIP_KEYS").ok().and_then(|s| serde_json::from_str::<Vec<String>>(&s).ok()).unwrap_or_default().into_iter().collect();
     let mut sink = |case: Case| {
         let idx = gen_index;
         gen_index += 1;
@@ -423,8 +434,13 @@ pub fn run_worker(prop: &dyn Prop, args: WorkerArgs) -> WorkerReport {
             rep.capped = true;
             return;
         }
+        if skip.contains(&case.key) {
+            return;
+        }
         set_current(&case.key, idx);
+        IN_CHECK.store(true, Ordering::SeqCst);
         let res = std::panic::catch_unwind(std::panic::AssertUnwindSafe(|| prop.check(&mut env, &case)));
+        IN_CHECK.store(false, Ordering::SeqCst);
         let verdict = match res {
             Ok(v) => v,
             Err(p) => {
@@ -497,7 +513,9 @@ pub fn run_worker(prop: &dyn Prop, args: WorkerArgs) -> WorkerReport {
     };
     prop.generate(args.tier, &mut sink);
     rep.generated = gen_index;
-    rep.nontrivial_distinct = nontrivial.len() as u64;
+    rep.nontrivial_distinct = nontrivial.len() as u64 + env.bulk_nontrivial;
+    rep.evaluations += env.bulk_evals;
+    rep.bulk_evals = env.bulk_evals;
     rep.outcomes = outcomes.into_iter().collect();
     rep.wall_s = started.elapsed().as_secs_f64();
     rep
@@ -533,9 +551,10 @@ struct ShardRun {
     start: u64,
     child: std::process::Child,
     home: PathBuf,
+    skip: Vec<String>,
 }
 
-fn spawn_worker(id: &str, profile: &str, tier: Tier, shard: usize, n: usize, start: u64, deadline: u64, base: &Path) -> ShardRun {
+fn spawn_worker(id: &str, profile: &str, tier: Tier, shard: usize, n: usize, start: u64, deadline: u64, base: &Path, skip: &[String]) -> ShardRun {
     let bin = profile_bin(profile);
     if !bin.exists() {
         eprintln!("machinery: missing harness binary {}", bin.display());
@@ -552,6 +571,7 @@ fn spawn_worker(id: &str, profile: &str, tier: Tier, shard: usize, n: usize, sta
         .arg(start.to_string())
         .arg(deadline.to_string())
         .env("VH_PROFILE", profile)
+        .env("VH_SKIP_KEYS", serde_json::to_string(skip).unwrap())
         .env("HOME", &home)
         .env("XDG_DATA_HOME", home.join("data"))
         .env("XDG_CONFIG_HOME", home.join("config"))
@@ -569,6 +589,7 @@ fn spawn_worker(id: &str, profile: &str, tier: Tier, shard: usize, n: usize, sta
         start,
         child,
         home,
+        skip: skip.to_vec(),
     }
 }
 
@@ -582,10 +603,10 @@ pub struct Merged {
 pub fn run_shards(prop: &dyn Prop, opts: &RunOpts) -> Merged {
     let base = scratch_dir(prop.id());
     let profiles = prop.profiles(opts.tier);
-    let mut pending: Vec<(String, usize, u64)> = Vec::new();
+    let mut pending: Vec<(String, usize, u64, Vec<String>)> = Vec::new();
     for p in &profiles {
         for s in 0..opts.nshards {
-            pending.push((p.to_string(), s, 0));
+            pending.push((p.to_string(), s, 0, Vec::new()));
         }
     }
     let mut reports = Vec::new();
@@ -596,8 +617,8 @@ pub fn run_shards(prop: &dyn Prop, opts: &RunOpts) -> Merged {
     loop {
         while running.len() < maxpar {
             match pending.pop() {
-                Some((p, s, start)) => {
-                    running.push(spawn_worker(prop.id(), &p, opts.tier, s, opts.nshards, start, opts.deadline_s, &base));
+                Some((p, s, start, skip)) => {
+                    running.push(spawn_worker(prop.id(), &p, opts.tier, s, opts.nshards, start, opts.deadline_s, &base, &skip));
                 }
                 None => break,
             }
@@ -607,7 +628,7 @@ pub fn run_shards(prop: &dyn Prop, opts: &RunOpts) -> Merged {
         }
         // wait for the first one (in order; simple and adequate)
         let run = running.remove(0);
-        let ShardRun { profile, shard, start, child, home } = run;
+        let ShardRun { profile, shard, start, child, home, mut skip } = run;
         let out = child.wait_with_output().expect("wait worker");
         let _ = std::fs::remove_dir_all(&home);
         let stderr = String::from_utf8_lossy(&out.stderr).to_string();
@@ -648,17 +669,12 @@ pub fn run_shards(prop: &dyn Prop, opts: &RunOpts) -> Merged {
                     eprintln!("machinery: more than 40 crashing cases, giving up");
                     break;
                 }
-                // NOTE: the partial report of the crashed worker is lost; the
-                // shard is re-run from the case after the crashing one so the
-                // remaining cases are still evaluated (earlier ones are
-                // evaluated twice, which is harmless).
-                let _ = start;
-                pending.push((profile, shard, idx + 1));
-                // first re-run covers [0, idx) again to regain the report:
-                // simplest correct choice is to restart from 0 but skipping
-                // idx; encode by start = idx+1 and accept that cases < idx of
-                // this shard are not in the merged counts.  To keep counts
-                // honest we instead restart from 0 with a skip list.
+                // The partial report of the crashed worker is lost, so the
+                // shard is re-run from its beginning with the crashing case
+                // on its skip list (that case is already a verdict).
+                let _ = (start, idx);
+                skip.push(key);
+                pending.push((profile, shard, 0, skip));
             }
             _ => {
                 eprintln!("machinery: worker {profile}/{shard} failed: {:?}\n{}", out.status, stderr);
